@@ -18,6 +18,13 @@ What is demanded (and nothing else):
  * Hardy-Weinberg: het_freq_hwe = nA nB / ((2n-1) n); two-sided mid-p = P(less probable) + 1/2 P(equally probable);
    one-sided mid-p = P(more hets) + 1/2 P(observed), under the Levene-Haldane distribution.
  * every p-value is in [0, 1]; p-values agree within relative 1e-9 or absolute 1e-12.
+
+Arithmetic-overflow boundary layer (not exhaustive; a fixed list per tier): genotype triples with n around 23170, 32767, 46340,
+46341, 50000, 65536, 100000 (thorough: up to 200000) at minor-allele frequencies 0.01 / 0.35 / 0.5 near equilibrium, 2x2
+tables with one small row and margins around 32767 / 46341 / 65536 (all four tests) and tables with every cell that large
+(chi-squared and dispatch only: the engine's Fisher code is quadratic in the support).  The natural intermediate products
+((nA+1)(nB+1), nA nB, ad, bc, products of margins) cross 2^15, 2^16, 2^31-1 and 2^32.  HWE p-values are compared with a
+log-gamma Levene-Haldane reference in floats at relative 1e-6 (absolute 1e-12); tables keep the exact references.
 """
 import json
 import math
@@ -80,7 +87,9 @@ def fisher_ref(a, b, c, d):
         return None
     lo, hi = max(0, n - (b + d)), min(n, m)
     w = [math.comb(m, k) * math.comb(N - m, n - k) for k in range(lo, hi + 1)]
-    return {'lo': lo, 'hi': hi, 'w': w, 'x': a}
+    wmax = max(w)
+    wf = [k / wmax for k in w]   # floats in (0, 1] (int / int is correctly rounded at any size): huge binomials must not overflow
+    return {'lo': lo, 'hi': hi, 'w': w, 'wf': wf, 'x': a}
 
 
 def _moments(w, t):
@@ -101,7 +110,7 @@ def _mean_at(r, t):
         return float(r['lo'])
     if math.isinf(t):
         return float(r['hi'])
-    w = r['w']
+    w = r['wf']
     if t > 1:  # evaluate in powers of 1/t to avoid overflow
         s0, s1 = _moments(w[::-1], 1 / t)
         return r['hi'] - s1 / s0
@@ -111,7 +120,7 @@ def _mean_at(r, t):
 
 def _tail_at(r, t, x, upper):
     """P_t(K >= x) if upper else P_t(K <= x)."""
-    lo, hi, w = r['lo'], r['hi'], r['w']
+    lo, hi, w = r['lo'], r['hi'], r['wf']
     if t <= 0:
         return (1.0 if x <= lo else 0.0) if upper else (1.0 if x >= lo else 0.0)
     if math.isinf(t):
@@ -262,6 +271,8 @@ def judge_ctt(t, rows, f_out, c_out):
         use_chi = all(x >= m for x in t)
         tags.append('chi' if use_chi else 'fisher')
         want = c_out if use_chi else f_out
+        if want is None:
+            raise J.HarnessError(f'C37: large-table case {t} m={m} dispatches to Fisher but Fisher was not run')
         if isinstance(out, dict) or isinstance(want, dict):
             if isinstance(out, dict) != isinstance(want, dict):
                 v.append(('ctt:dispatch', f'contingencyTableTest{tuple(t) + (m,)} = {out}, expected the {"chi-squared" if use_chi else "Fisher"} result {want}'))
@@ -282,7 +293,60 @@ def hwe_ref(r, h, v):
     return n, nA, nB, w
 
 
+LARGE_REL = 1e-6   # stated tolerance of the overflow-boundary layer (reference in floats via math.lgamma)
+
+
+def hwe_ref_large(r, h, v):
+    """Levene-Haldane weights in floats, normalised to max 1: log W_k = lgamma(n+1) - lgamma((nA-k)/2+1) - lgamma(k+1)
+    - lgamma((nB-k)/2+1) + k log 2.  Independent of the engine's recurrences; good to ~1e-9 relative at n ~ 10^5."""
+    n = r + h + v
+    nA = h + 2 * min(r, v)
+    nB = 2 * n - nA
+    lg = math.lgamma
+    ln2 = math.log(2.0)
+    c = lg(n + 1)
+    lw = {k: c - lg((nA - k) // 2 + 1) - lg(k + 1) - lg((nB - k) // 2 + 1) + k * ln2 for k in range(nA % 2, nA + 1, 2)}
+    m = max(lw.values())
+    return n, nA, nB, lw, m
+
+
+def judge_hwe_large(g, two, one):
+    r, h, v = g
+    n, nA, nB, lw, m = hwe_ref_large(r, h, v)
+    w = {k: math.exp(x - m) for k, x in lw.items()}
+    tot = math.fsum(w.values())
+    eps = 1e-8   # log-weights closer than this to the observed one are possible ties: accepted either way
+    lo = lw[h]
+    less = math.fsum(w[k] for k, x in lw.items() if x < lo - eps)
+    near = math.fsum(w[k] for k, x in lw.items() if k != h and abs(x - lo) <= eps)
+    p_two_min = (less + 0.5 * w[h]) / tot
+    p_two_max = (less + 0.5 * w[h] + near) / tot
+    p_one = (math.fsum(x for k, x in w.items() if k > h) + 0.5 * w[h]) / tot
+    out = []
+    for name, res in (('two-sided', two), ('one-sided', one)):
+        if isinstance(res, dict):
+            out.append((f'hwe:{name}:raised', f'hardyWeinbergTest{tuple(g)} {name} raised {res["err"]}'))
+            continue
+        hf, p = res
+        if not close(hf, Fraction(nA * nB, (2 * n - 1) * n), rel=1e-12, ab=0.0):
+            out.append(('hwe:het_freq_hwe', f'hardyWeinbergTest{tuple(g)} het_freq_hwe = {hf!r}, definition n_ref*n_var/((2n-1)n) = {nA * nB}/{(2 * n - 1) * n}'))
+        if not (p == p and 0.0 <= p <= 1.0):
+            out.append((f'hwe:{name}:p_value-outside-[0,1]', f'hardyWeinbergTest{tuple(g)} {name} p_value = {p!r}'))
+        if name == 'two-sided':
+            ok = close(p, p_two_min, rel=LARGE_REL) or close(p, p_two_max, rel=LARGE_REL) or p_two_min <= p <= p_two_max
+            pref = p_two_min
+        else:
+            ok = close(p, p_one, rel=LARGE_REL)
+            pref = p_one
+        if not ok:
+            out.append((f'hwe:{name}:p_value', f'hardyWeinbergTest{tuple(g)} {name} mid-p p_value = {p!r}, log-gamma reference {pref!r} '
+                        f'(n = {n}, (nA+1)(nB+1) = {(nA + 1) * (nB + 1)})'))
+    return out, ('sensitive' if p_two_min > 1e-6 else 'tiny-p')
+
+
 def judge_hwe(g, two, one):
+    if sum(g) > 2000:
+        return judge_hwe_large(g, two, one)
     r, h, v = g
     n, nA, nB, w = hwe_ref(r, h, v)
     out = []
@@ -327,6 +391,10 @@ def judge_hwe(g, two, one):
 
 def _judge_table_line(d):
     t = d['t']
+    if d.get('f') is None:   # overflow-boundary table too large for the engine's quadratic Fisher code: chi-squared + dispatch only
+        v2, tag_c = judge_chisq(t, d['c'], d.get('x'))
+        v3, tags_ct = judge_ctt(t, d['ct'], None, d['c'])
+        return v2 + v3, 'skipped', tag_c, tags_ct
     v1, tag_f = judge_fisher(t, d['f'])
     v2, tag_c = judge_chisq(t, d['c'], d.get('x'))
     v3, tags_ct = judge_ctt(t, d['ct'], d['f'], d['c'])
@@ -337,7 +405,94 @@ def _size(t):
     return (sum(t), tuple(t))
 
 
+def large_cases(tier):
+    """Arithmetic-overflow boundary layer: inputs whose natural intermediate products ((nA+1)(nB+1), nA*nB, a*d, b*c,
+    products of margins, N*det) cross 2^15, 2^16, 2^31-1 and 2^32.  -> (hwe triples, Fisher-able tables, chi-only tables)"""
+    quick = tier == 'quick'
+    ns = [23170, 32767, 46340, 46341, 50000, 65536, 100000] if quick else \
+        [16384, 23170, 23171, 32767, 32768, 40000, 46340, 46341, 46342, 50000, 65535, 65536, 65537, 80000, 100000, 131072, 200000]
+    qs = [0.01, 0.35, 0.5] if quick else [0.01, 0.1, 0.35, 0.5]
+    sds = [0.3] if quick else [-1.0, 0.0, 0.3, 2.0]
+    triples = [(21075, 22850, 6075)]
+    for n in ns:
+        for q in qs:
+            nA = round(2 * n * q)                       # copies of the minor allele
+            mean = nA * (2 * n - nA) / (2 * n - 1)
+            sd = math.sqrt(max(mean * (1 - 2 * q * (1 - q)), 1.0))
+            for z in sds:
+                h = min(max(round(mean + z * sd), 0), nA)
+                h -= (nA - h) % 2                       # parity of hets = parity of nA
+                v = (nA - h) // 2
+                r = n - h - v
+                if h < 0 or r < 0:
+                    continue
+                triples.append((r, h, v))
+                if not quick or q == 0.35:
+                    triples.append((v, h, r))           # minor allele on the other side
+    seen = set()
+    triples = [t for t in triples if not (t in seen or seen.add(t))]
+    # tables with one small row: Fisher's support stays small (its code is quadratic in the support) while margins are large
+    big = [32767, 46341, 65536] if quick else [23170, 32767, 32768, 46340, 46341, 46342, 65535, 65536, 65537, 100000]
+    small_rows = [(3, 7), (12, 0)] if quick else [(3, 7), (12, 0), (0, 9), (25, 30), (100, 150)]
+    ftables = []
+    for c in big:
+        for (a, b) in small_rows:
+            ftables.append((a, b, c, c // 3 + 1))
+            ftables.append((a, c, b, 2 * c + 1))
+    # tables with every cell large: chi-squared and the dispatch only
+    ctables = [(46341, 46341, 46341, 46341), (46340, 46341, 46341, 46340), (65536, 65536, 65535, 65537), (23170, 23171, 23169, 23172),
+               (32767, 32768, 32768, 32766), (100000, 50000, 30000, 70000), (46341, 2, 3, 46341), (65537, 65535, 32768, 32767)]
+    if not quick:
+        for k in (23170, 32768, 46340, 46342, 65535, 92682, 131072, 200000, 1000000):
+            ctables += [(k, k + 1, k + 2, k - 1), (k, 2 * k, 3 * k, 6 * k + 1), (k, 7, 11, k + 5), (2 * k, k, k // 2, k // 3)]
+    return triples, ftables, ctables
+
+
+def _large_job(cls, tier):
+    triples, ftables, ctables = large_cases(tier)
+    lines = ['g %d %d %d' % t for t in triples]
+    lines += ['t %d %d %d %d 0 %d' % (t + (min(t) + 1,)) for t in ftables]
+    lines += ['x %d %d %d %d 0 %d' % (t + (min(t),)) for t in ctables]
+    out = J.run(cls, MAIN, '\n'.join(lines) + '\n', args=['cases']).splitlines()
+    if len(out) != len(lines):
+        raise J.HarnessError(f'C37: {len(out)} answers for {len(lines)} large cases')
+    viol = {}
+    cnt = {'large_hwe': 0, 'large_hwe_sensitive': 0, 'large_hwe_product_over_2^31': 0, 'large_fisher_tables': 0, 'large_chisq_tables': 0,
+           'large_max_n': 0}
+    samples = []
+    for raw in out:
+        d = json.loads(raw)
+        if 'g' in d:
+            vs, tag = judge_hwe(d['g'], d['two'], d['one'])
+            n = sum(d['g'])
+            nA = d['g'][1] + 2 * min(d['g'][0], d['g'][2])
+            nB = 2 * n - nA
+            cnt['large_hwe'] += 1
+            cnt['large_hwe_sensitive'] += tag == 'sensitive'
+            cnt['large_hwe_product_over_2^31'] += (nA + 1) * (nB + 1) > 2**31 - 1
+            cnt['large_max_n'] = max(cnt['large_max_n'], n)
+            rep = {'kind': 'hwe', 'g': d['g']}
+            if d['g'] == [21075, 22850, 6075]:
+                samples.append(d)
+        else:
+            vs = _judge_table_line(d)[0]
+            fisher = d.get('f') is not None
+            cnt['large_fisher_tables' if fisher else 'large_chisq_tables'] += 1
+            rep = {'kind': 'table', 't': d['t'], 'm': [m for m, _ in d['ct']], 'fisher': fisher}
+            if d['t'] in ([3, 7, 46341, 15448], [46341, 46341, 46341, 46341]):
+                samples.append(d)
+        for sig, msg in vs:
+            cur = viol.get(sig)
+            if cur is None:
+                viol[sig] = (msg, rep, 1)
+            else:
+                viol[sig] = (cur[0], cur[1], cur[2] + 1)
+    return viol, cnt, samples
+
+
 def _job(job):
+    if job[0] == 'large':
+        return ('large',) + _large_job(job[1], job[2])
     if job[0] == 'hwe':
         return ('hwe',) + _hwe_run(job[1], job[2])
     return ('tables',) + _table_shard(job[1:])
@@ -471,10 +626,11 @@ def check(tier, seed, procs):
         raise J.HarnessError('C37 self-check: scipy chi-square tail disagrees with erfc')
     nshard = max(1, min(procs - 1, ncell + 1, 8 if tier == 'quick' else 15))
     cuts = [round(i * (ncell + 1) / nshard) for i in range(nshard + 1)]
-    jobs = [('hwe', str(cls), ngt)] + par.rotate([('tables', str(cls), ncell, cuts[i], cuts[i + 1] - 1) for i in range(nshard)], seed)
+    jobs = [('large', str(cls), tier), ('hwe', str(cls), ngt)] + par.rotate([('tables', str(cls), ncell, cuts[i], cuts[i + 1] - 1) for i in range(nshard)], seed)
     res = par.pmap(_job, jobs, min(procs, len(jobs)), chunksize=1)
     rows = [r[1:] for r in res if r[0] == 'tables']
     (hv, hcnt, hpv, hsamples), = [r[1:] for r in res if r[0] == 'hwe']
+    (lv, lcnt, lsamples), = [r[1:] for r in res if r[0] == 'large']
     viol = {}
     cnt = {}
     all_pv = set()
@@ -491,10 +647,16 @@ def check(tier, seed, procs):
             else:
                 viol[sig] = (cur[0], cur[1], cur[2] + k)
     viol.update(hv)
+    for sig, (msg, rep, k) in lv.items():   # a class already seen on a small case keeps its small example
+        if sig in viol:
+            viol[sig] = (viol[sig][0], viol[sig][1], viol[sig][2] + k)
+        else:
+            viol[sig] = (msg, rep, k)
     violations = [{'signature': sig, 'message': f'{msg}   [{k} case(s) of this class in the enumerated domain]', 'replay': rep}
                   for sig, (msg, rep, k) in sorted(viol.items())]
-    samples = sorted(samples, key=lambda d: d['t'])[:3] + hsamples[:2]
-    evaluations = cnt['tables'] * 2 + cnt['ctt_calls'] + 2 * hcnt['triples']
+    samples = sorted(samples, key=lambda d: d['t'])[:3] + hsamples[:2] + lsamples[:3]
+    evaluations = (cnt['tables'] * 2 + cnt['ctt_calls'] + 2 * hcnt['triples']
+                   + 2 * lcnt['large_hwe'] + 4 * lcnt['large_fisher_tables'] + 3 * lcnt['large_chisq_tables'])
     cov = {
         'evaluations': evaluations,
         'distinct_nontrivial': cnt['fisher_nondegenerate'] + hcnt['nontrivial'],
@@ -520,11 +682,16 @@ def check(tier, seed, procs):
         'hwe_near_ties': hcnt['near_tie'],
         'hwe_distinct_two_sided_p_values': hpv,
         'hwe_p_below_0.05': hcnt['p_lt_0.05'],
+        'overflow_boundary_layer': dict(lcnt, tolerance=f'HWE p-values: relative {LARGE_REL} (log-gamma reference in floats); tables: exact references, '
+                                        'same tolerances as the dense layer', note='not exhaustive: a fixed list of inputs whose intermediate '
+                                        'products cross 2^15, 2^16, 2^31-1, 2^32 (n up to %d)' % lcnt['large_max_n']),
     }
     vac = None
     if not (cnt['fisher_nondegenerate'] > 1000 and cnt['ctt_chi'] > 0 and cnt['ctt_fisher'] > 0 and cnt['or_interior'] > 0
-            and hcnt['with_exact_tie'] > 0 and hpv > 100 and cnt['fisher_p_lt_0.05'] > 0):
-        vac = f'interesting branches not reached: {cnt} {hcnt}'
+            and hcnt['with_exact_tie'] > 0 and hpv > 100 and cnt['fisher_p_lt_0.05'] > 0
+            and lcnt['large_hwe_sensitive'] >= 10 and lcnt['large_hwe_product_over_2^31'] >= 5 and lcnt['large_fisher_tables'] > 0
+            and lcnt['large_chisq_tables'] > 0):
+        vac = f'interesting branches not reached: {cnt} {hcnt} {lcnt}'
     return {
         'coverage': cov,
         'violations': violations,
@@ -539,6 +706,8 @@ def check(tier, seed, procs):
             'scala.collection.compat LazyList is replaced by the Scala 2.13 standard LazyList',
             'odds ratio and confidence bounds are accepted within the root-finder tolerance the engine documents (1.22e-4 on the search variable)',
             'tables with an empty row or column: NaN results accepted (the docs say fields may be NaN)',
+            'overflow-boundary layer: Levene-Haldane reference at n > 2000 is math.lgamma-based floats (relative tolerance 1e-6); that layer is '
+            'a fixed list, not an exhaustive range',
             'reference chi-square tail: scipy.special.chdtrc (the function scipy.stats.chi2.sf evaluates)',
         ],
         'vacuous': vac,
@@ -548,7 +717,7 @@ def check(tier, seed, procs):
 def replay(obj):
     cls = build()
     if obj['kind'] == 'table':
-        line = 't ' + ' '.join(map(str, obj['t'])) + ' ' + ' '.join(map(str, obj.get('m', [0])))
+        line = ('t ' if obj.get('fisher', True) else 'x ') + ' '.join(map(str, obj['t'])) + ' ' + ' '.join(map(str, obj.get('m', [0])))
         d = json.loads(J.run(cls, MAIN, line + '\n', args=['cases']).splitlines()[0])
         vs = _judge_table_line(d)[0]
     else:
